@@ -143,7 +143,10 @@ func parseValue(d *jx.Decoder) (pcommon.Value, bool, error) {
 		} else {
 			n, err := num.Float64()
 			if err != nil {
-				return val, false, err
+				// Number is out of float64 range: keep it as written
+				// instead of failing the whole line.
+				val = pcommon.NewValueStr(num.String())
+				break
 			}
 			val = pcommon.NewValueDouble(n)
 		}
